@@ -257,6 +257,7 @@ fn check_matrix_inverses(ctx: &Ctx, c: &mut Collector) {
 // chromatic adaptation
 
 mod adapt;
+mod matrix3;
 
 fn replay(c: &mut Collector, rep: &Value) {
     let case = &rep["case"];
@@ -294,6 +295,10 @@ fn replay(c: &mut Collector, rep: &Value) {
             let ctx = Ctx::from_args("C14").0;
             check_matrix_inverses(&ctx, c);
         }
+        "dynamic" | "matrix3" => {
+            let ctx = Ctx::from_args("C14").0;
+            matrix3::run(&ctx, c);
+        }
         _ => {
             let ctx = Ctx::from_args("C14").0;
             adapt::run(&ctx, c);
@@ -324,6 +329,7 @@ fn real_main() -> i32 {
     run_graph(&ctx, &pgd::dci_f64(), levels, &mut total);
     check_matrix_inverses(&ctx, &mut total);
     adapt::run(&ctx, &mut total);
+    matrix3::run(&ctx, &mut total);
     ctx.finish(
         total,
         "model_checking",
